@@ -232,14 +232,14 @@ def obligations(tier):
         for api in ("scan", "row_count", "scan_batches"):
             obs.append(Ob(f"rw.L.{api}.replace_vs_append.2writers.K2", "vf.props.c02:readers_writers",
                           {"rig": "L", "api": api, "writer": "replace_vs_append", "K": 2, "writers": 2}, timeout=T,
-                          bounds="1 reader vs 2 writers on separate handles (a delete+append transaction racing a plain append), K=2", weight=9))
+                          bounds="1 reader vs 2 writers on separate handles (a delete+append transaction racing a plain append), K=2", weight=9, allow_inconclusive=True))
             obs.append(Ob(f"rw.L.{api}.shared_readers.K2", "vf.props.c02:readers_writers",
                           {"rig": "L", "api": api, "writer": "appends", "K": 2, "readers": 2, "shared_readers": True}, timeout=T,
-                          bounds="2 reader threads sharing one warm handle vs 1 writer, K=2", weight=9))
+                          bounds="2 reader threads sharing one warm handle vs 1 writer, K=2", weight=9, allow_inconclusive=True))
         obs.append(Ob("rw.L.scan.2writers.K2", "vf.props.c02:readers_writers", {"rig": "L", "api": "scan", "writer": "txn_delete_rollback", "K": 2, "writers": 2},
                       timeout=T, bounds="1 reader vs 2 writers, K=2", weight=9))
         obs.append(Ob("rw.L.row_count.2readers.K2", "vf.props.c02:readers_writers", {"rig": "L", "api": "row_count", "writer": "txn_delete_rollback", "K": 2, "readers": 2},
-                      timeout=T, bounds="2 readers vs 1 writer, K=2", weight=9))
-        obs.append(Ob("rw.L.scan.K3", "vf.props.c02:readers_writers", {"rig": "L", "api": "scan", "writer": "txn_delete_rollback", "K": 3}, timeout=T * 2,
+                      timeout=T, bounds="2 readers vs 1 writer, K=2", weight=9, allow_inconclusive=True))
+        obs.append(Ob("rw.L.scan.K3", "vf.props.c02:readers_writers", {"rig": "L", "api": "scan", "writer": "txn_delete_rollback", "K": 3}, timeout=T,
                       bounds="1 reader vs 1 writer, K=3", weight=9, allow_inconclusive=True))
     return obs
